@@ -5,3 +5,5 @@ mod oset;
 mod dollar;
 #[cfg(kani)]
 mod span;
+#[cfg(kani)]
+mod cst;
